@@ -8,6 +8,7 @@
 From stdpp Require Import gmap.
 From Coq Require Import NArith ZArith.
 From RV Require Import Lib.Hex Model.Crdt Model.ShardState.
+From RV Require Model.Resp Model.MiniExec.
 Local Open Scope N_scope.
 
 (* ---------- the executor, restricted to the replicated command set on strings and hashes ---------- *)
@@ -226,9 +227,54 @@ Definition same_set (l1 l2 : list rvalue) : Prop := ∀ x, In x l1 ↔ In x l2.
    server_persistent.rs: ReplicatedShardedState::apply_recovered_state(None, deltas) feeds them
    through apply_remote_deltas, exactly like deliveries).  What it had received from others
    comes back through ordinary deliveries (gossip, anti-entropy). *)
+(* ---------- the counter-like commands: INCR / DECR / INCRBY / DECRBY, GETSET, HINCRBY ---------- *)
+(* The executor computes a new string (or hash field) from the current one and the glue records
+   a write of the POST-state (record_mutation_post_execute: record_write(key, post value, None),
+   resp. record_hash_write(key, [(field, post value)])).  Given the executor's current state
+   such a command therefore does exactly what a plain SET of the post value (resp. an HSET of
+   that one field) does, or - when it answers an error (not an integer, overflow, WRONGTYPE) -
+   nothing.  [desugar] computes that command; the reply is not modelled. *)
+Inductive ccmd2 :=
+| CIncrBy (k : list N) (d : Z)             (* INCR = 1, DECR = -1, INCRBY d, DECRBY (-d) *)
+| CGetSet (k v : list N)
+| CHIncrBy (k f : list N) (d : Z).
+
+Definition in_i64 (z : Z) : bool := ((- 9223372036854775808 <=? z) && (z <=? 9223372036854775807))%Z.
+
+Definition desugar (x : gmap (list N) xval) (c : ccmd2) : option ccmd :=
+  match c with
+  | CIncrBy k d =>
+      match x !! k with
+      | None => Some (CSet k (Resp.show_Z d) false false)
+      | Some (XStr s) =>
+          match MiniExec.parse_redis_integer s with
+          | Some z => if in_i64 (z + d) then Some (CSet k (Resp.show_Z (z + d)) false false) else None
+          | None => None
+          end
+      | Some (XHash _) => None
+      end
+  | CGetSet k v =>
+      match x !! k with
+      | Some (XHash _) => None
+      | _ => Some (CSet k v false false)
+      end
+  | CHIncrBy k f d =>
+      match x !! k with
+      | Some (XStr _) => None
+      | cur =>
+          let h := match cur with Some (XHash g) => g | _ => ∅ end in
+          let z0 := match h !! f with Some s => MiniExec.parse_redis_integer s | None => Some 0%Z end in
+          match z0 with
+          | Some z => if in_i64 (z + d) then Some (CHSet k [(f, Resp.show_Z (z + d))]) else None
+          | None => None
+          end
+      end
+  end.
+
 Inductive rcev :=
 | RStep (e : cev)
-| RRestart (i : nat).
+| RRestart (i : nat)
+| RClient2 (i : nat) (c : ccmd2).
 
 Definition own_deliveries (i : nat) (log : list (nat * list N * rvalue)) : list cev :=
   omap (λ x, if bool_decide (x.1.1 = i) then Some (CDeliver i x.1.2 x.2) else None) log.
@@ -240,6 +286,15 @@ Definition rstep (c : list node) (log : list (nat * list N * rvalue)) (e : rcev)
   | RRestart i =>
       match c !! i with
       | Some _ => crun (<[ i := node_init (N.of_nat (S i)) ]> c) log (own_deliveries i log)
+      | None => (c, log)
+      end
+  | RClient2 i c2 =>
+      match c !! i with
+      | Some n =>
+          match desugar (n_x n) c2 with
+          | Some cmd => cstep c log (CClient i cmd)
+          | None => (c, log)
+          end
       | None => (c, log)
       end
   end.
